@@ -98,6 +98,7 @@ def c09(tier, seed):
         Run("seqops", "miri", ["--flavours", "HeapTok,ZTok,u8,u32,[u64;3],(),Tok24", "--maxn", "6", "--part", "small"], shards=32, label="seqops/miri(N<=6)"),
         Run("seqops", "miri", ["--flavours", "u8,ZTok", "--maxn", "65", "--part", "big"], shards=8, label="seqops/miri(big<=65)"),
         Run("seqops", "asan", ["--flavours", "HeapTok,String,u8,[u64;3]"], shards=4),
+        Run("seqops", "miri-sb", ["--flavours", "u8,HeapTok", "--maxn", "3", "--part", "small"], shards=8, label="seqops/miri-stacked-borrows(advisory)", advisory=True),
     ]
 
 
@@ -231,6 +232,7 @@ def c11(tier, seed):
         Run("regroup", "miri", ["--flavours", "HeapTok,ZTok,u32,Tok24,()", "--maxn", "36", "--part", "small"], shards=32, label="regroup/miri(NM<=36)"),
         Run("regroup", "miri", ["--flavours", "u32,ZTok", "--maxn", "65", "--part", "big"], shards=4, label="regroup/miri(big<=65)"),
         Run("regroup", "asan", ["--flavours", "HeapTok,String,u32"], shards=4),
+        Run("regroup", "miri-sb", ["--flavours", "u32,HeapTok", "--maxn", "9", "--part", "small"], shards=8, label="regroup/miri-stacked-borrows(advisory)", advisory=True),
     ]
 
 
